@@ -1,6 +1,7 @@
 import HapModel.Drv.Basic
 import HapModel.Model.PhenoFile
 import HapModel.Model.NumTok
+import HapModel.Model.FloatText
 namespace Drv
 open Lean PhenoFile
 
@@ -16,5 +17,17 @@ def hPhenoParse (j : Json) : R Json := do
 
 def hUniqNames (j : Json) : R Json := do
   pure <| jObj [("names", jArr ((Pheno.uniqNames (← listF str j "names")).map jStr))]
+
+/-- {"op":"floatTok","pairs":[[bits (decimal string), token]…]} → {"verdicts":["reads"|"special"|"wrong"…]}:
+    does the written token stand for the value with these bits for every correctly rounding reader? -/
+def hFloatTok (j : Json) : R Json := do
+  let pairs ← listF (listOf str) j "pairs"
+  let vs ← pairs.mapM (fun p => match p with
+    | [b, t] => match b.toNat? with
+        | some bits => pure (match FloatText.checkTok bits t with
+            | .reads => "reads" | .special => "special" | .wrong => "wrong")
+        | none => throw "floatTok: bits must be a decimal natural"
+    | _ => throw "floatTok: [bits, token] expected")
+  pure <| jObj [("verdicts", jArr (vs.map jStr))]
 
 end Drv
